@@ -230,7 +230,7 @@ func (d *ds) Load(ctx context.Context, headers http.Header, input []byte) ([]byt
 			tn, id := repKey(rep)
 			n := 0
 			var e *Ent
-			if tn == f.Type {
+			if tn == f.Type && !d.p.U.Unknown[tn+"/"+id+"/"+strconv.Itoa(f.Sub)] {
 				e = d.p.U.Ents[tn+"/"+id]
 			}
 			ent := d.p.U.project(e, f.Sel, f.Sub, true, o, &n)
